@@ -608,3 +608,91 @@ func (in *Interp) nativeErr(err error) Iface {
 
 var _ = fmt.Sprint
 var _ *ssa.Function
+
+func init() {
+	// Formatting of symbolic quantities is not the subject of any check that
+	// reaches these functions with symbolic arguments: the text becomes an
+	// opaque atom (it may be concatenated and written, never inspected).
+	opaque := func(name string) hookFn {
+		return func(fr *frame, a []Value) Value {
+			in := fr.in
+			var ts []*sym.Term
+			symbolic := false
+			for _, x := range a {
+				if t, ok := x.(*sym.Term); ok {
+					ts = append(ts, t)
+					if !t.IsConst() {
+						symbolic = true
+					}
+				}
+			}
+			if !symbolic {
+				return fr.runBody(a)
+			}
+			in.note("stub: " + name + " of a symbolic value yields opaque text")
+			extra := ""
+			for _, x := range a {
+				if s, ok := x.(string); ok {
+					extra += "," + s
+				}
+			}
+			return in.mkStr([]SPart{{A: &Atom{Kind: "opaque", Verb: name + extra, Args: ts}}})
+		}
+	}
+	reg("github.com/google/pprof/internal/measurement.ScaledLabel", opaque("ScaledLabel"))
+	reg("github.com/google/pprof/internal/measurement.Label", opaque("Label"))
+	reg("github.com/google/pprof/internal/measurement.Percentage", opaque("Percentage"))
+}
+
+func hasOpaque(v Value) bool {
+	s, ok := v.(*SStr)
+	if !ok {
+		return false
+	}
+	for _, p := range s.P {
+		if p.A != nil && p.A.Kind == "opaque" {
+			return true
+		}
+	}
+	return false
+}
+
+func init() {
+	// String transformations of text that contains opaque formatted numbers
+	// yield derived opaque text (never inspected by any check).
+	derive := func(name string) hookFn {
+		return func(fr *frame, a []Value) Value {
+			if !hasOpaque(a[0]) {
+				return fr.runBody(a)
+			}
+			in := fr.in
+			var ts []*sym.Term
+			verb := name + "("
+			for _, p := range a[0].(*SStr).P {
+				switch {
+				case p.A != nil:
+					verb += p.A.Verb + "|"
+					ts = append(ts, p.A.Args...)
+					if p.A.T != nil {
+						ts = append(ts, p.A.T)
+					}
+				case p.B != nil:
+					ts = append(ts, p.B)
+					verb += "?"
+				default:
+					verb += p.Lit
+				}
+			}
+			for _, x := range a[1:] {
+				if s, ok := x.(string); ok {
+					verb += "," + s
+				}
+			}
+			return in.mkStr([]SPart{{A: &Atom{Kind: "opaque", Verb: verb + ")", Args: ts}}})
+		}
+	}
+	reg("strings.TrimSpace", derive("TrimSpace"))
+	reg("strings.TrimSuffix", derive("TrimSuffix"))
+	reg("strings.TrimPrefix", derive("TrimPrefix"))
+	reg("strings.ToLower", derive("ToLower"))
+}
